@@ -4,6 +4,7 @@
 From Coq Require Import Extraction ExtrOcamlBasic.
 From GV Require Import Tables.ObsTypes Tables.Lookup Gen.Obs Tables.Enum.
 From GV Require Import Tables.Product Tables.RegFactory Tables.RegList Api.Api.
+From GV Require Import Ble.GoSem Ble.Layout Gen.BleImpl.
 From GV Require Import Base.Bytes Base.Hex Base.LE Vedirect.Frame Vedirect.Port Vedirect.Driver Vedirect.Judge Vedirect.Resync.
 Extraction Language OCaml.
 Set Extraction KeepSingleton.
@@ -16,4 +17,14 @@ Extraction "gvcore.ml"
   obs_fieldlists fl_fields fl_render render_ok f_map f_name
   connect read_register stream_register_list stream_plan number_value trim_space obs_product obs_reglist class_of
   enum_map_of fl_of new_enum int_of_uint64 le_uint le_int strip_nul
-  rl_run rl_step rl_empty rl_len rl_get_registers obs_family_bmv obs_family_solar obs_family_inverter.
+  rl_run rl_step rl_empty rl_len rl_get_registers obs_family_bmv obs_family_solar obs_family_inverter
+  spec_decode layout_len
+  layout_AcCharger layout_BatteryMonitor layout_DcDcConverter layout_DcEnergyMeter layout_GxDevice layout_Inverter
+  layout_InverterRs layout_LynxSmartBms layout_MultiRs layout_SmartBatteryProtect layout_SmartLithium layout_SolarCharger layout_VeBus
+  DecodeAcChargerRecord fields_AcChargerRecord DecodeBatteryMonitorRecord fields_BatteryMonitorRecord
+  DecodeDcDcConverterRecord fields_DcDcConverterRecord DecodeDcEnergyMeterRecord fields_DcEnergyMeterRecord
+  DecodeGxDeviceRecord fields_GxDeviceRecord DecodeInverterRecord fields_InverterRecord
+  DecodeInverterRsRecord fields_InverterRsRecord DecodeLynxSmartBms fields_LynxSmartBms
+  DecodeMultiRsRecord fields_MultiRsRecord DecodeSmartBatteryProtectRecord fields_SmartBatteryProtectRecord
+  DecodeSmartLithiumRecord fields_SmartLithiumRecord DecodeSolarChargeRecord fields_SolarChargerRecord
+  DecodeVeBusRecord fields_VeBusRecord.
